@@ -506,12 +506,6 @@ def _digits_ok(comp):
 
 
 # ----------------------------------------------------------------------------- the property
-LENIENT = [
-    # id, backends, pattern: text outside the three grammars that strict=True accepts (each is a listed, tight leniency class)
-    ("common-slash-colon-dates", ("py", "rs"), re.compile(r"[0-9]{4}(?:[/:]?[0-9]{2}[/:]?[0-9]{2})?(?: ?[0-9]{1,2}:[0-9]{1,2}(?::[0-9]{1,2})?(?:[.|,][0-9]{1,9})?)?\n?\Z")),
-]
-
-
 def _py_key(c):
     return json.dumps([c["fn"], c["args"], c.get("opts"), c.get("oseed")])
 
@@ -544,7 +538,7 @@ def _failures(c, backend, r):
             continue
         # 2. the value must be usable: a DateTime whose utcoffset() raises is not a supported value
         if res[0] == 0 and ((res[1] == 1 and res[9] == 1 and abs(res[10]) >= 86400) or (res[1] == 5 and res[2] == 1 and (abs(res[10]) >= 86400 or abs(res[18]) >= 86400))):
-            out.append((f"{tag} returned a DateTime with UTC offset {res[10]} s: utcoffset() raises", _classify_offset(s, backend)))
+            out.append((f"{tag} returned a DateTime with UTC offset {res[10]} s: utcoffset() raises", _classify_offset(s, o, item)))
             continue
         # 3. no wrapped numbers: unbounded-integer reading of the duration components
         w = _check_wrap(s, res, backend)
@@ -557,7 +551,7 @@ def _failures(c, backend, r):
             continue
         # 5. the two backends agree whenever both accept
         if other is not None and res[0] == 0 and other[k][0][0] == 0 and other[k][0] != res:
-            out.append((f"{tag}: backends disagree: py {other[k][0]} rs {res}", _classify_disagree(s)))
+            out.append((f"{tag}: backends disagree: py {other[k][0]} rs {res}", _classify_disagree(s, o, item, other[k])))
     return out
 
 
@@ -594,9 +588,15 @@ def _fits(d, backend):
     return lo // _US["D"] + 365 * y + 30 * mo <= 999999999
 
 
-def _classify_offset(s, backend):
+def _classify_offset(s, o, item):
+    # the parsers' own offset syntax [+-]hh[:][mm] at the end of a date-time (or of an interval half), any two-digit hour accepted ...
     m = re.search(r"([+-])(\d{2}):?(\d{2})?(?:/.*)?\n?\Z", s) or re.search(r"([+-])(\d{2}):?(\d{2})?/", s)
-    return "offset-out-of-range-accepted" if m else None
+    if m:
+        return "offset-out-of-range-accepted"
+    # ... or the datetime came from the dateutil fallback (strict=False), whose tzoffset is passed on unchecked as well
+    if not o["strict"] and len(item) == 2 and item[0] == item[1]:
+        return "offset-out-of-range-accepted"
+    return None
 
 
 def _check_wrap(s, res, backend):
@@ -638,37 +638,57 @@ def _check_wrap(s, res, backend):
     return None
 
 
-def _classify_lenient(s, backend, res):
-    for fid, backs, rx in LENIENT_ALL:
-        if backend in backs and rx.match(s):
+_RX_COMMON = r"(?:\d{4}(?:[/:]?\d{2}[/:]?\d{2})?)?(?: ?\d{1,2}:\d{1,2}(?::\d{1,2})?(?:[.|,]\d{1,9})?)?"
+_RX_PYISO = (r"(?:\d{4}(?:-?\d{2}(?:-?\d{1,2})?)?|\d{4}-?W\d{2}-?\d?)?"
+             r"(?:[T ]?\d{1,2}:?(?:\d{1,2})?:?(?:\d{1,2})?(?:[.,]\d{1,9})?(?:[-+]\d{2}:?(?:\d{2})?|Z)?)?")
+_RS_TAIL = r"(?::[0-9]{2}(?::[0-9]{2}(?:[.,][0-9]+)?)?|[0-9]{2}(?:[0-9]{2}(?:[.,][0-9]+)?)?)?(?:Z|[+-][0-9]{2}:?(?:[0-9]{2})?)?"
+_RX_RS = (r"(?:[0-9]{4}(?:-W[0-9]{2}(?:-[0-9])?|-[0-9]{2}(?:-[0-9]{2}|[0-9])?|W[0-9]{2}[0-9]?|[0-9]{3,4})(?:[T ][0-9]{2}" + _RS_TAIL + r")?"
+          r"|T[0-9]{2}" + _RS_TAIL + r"|[0-9]{2}(?=:)" + _RS_TAIL + r")")
+LENIENT = [
+    # text outside the three grammars that strict=True accepts; each class is the language of one concrete recogniser of /repo
+    # _parse_common: YYYY[/:]MM[/:]DD, one-digit clock fields, '|' as fraction separator, any Unicode digit, a final newline
+    ("strict-lenient-common-format", ("py", "rs"), re.compile(_RX_COMMON + r"\n?\Z")),
+    # pure-Python ISO8601_DT: any Unicode digit, `$` before a final newline, one-digit day / clock fields, separators mixed or dropped
+    ("strict-lenient-python-regex", ("py",), re.compile(_RX_PYISO + r"\n?\Z")),
+    # compiled descent: basic date with an hh:mm time, a dangling ':' after the offset hour, fractions after basic seconds of any length
+    ("strict-lenient-rust-descent", ("rs",), re.compile(_RX_RS + r"\Z")),
+    # duration parsers: designators without a number (P, PT, P1DT), Unicode digits / final newline (Python), a fraction that is not on the last
+    # component, out-of-order or repeated designators with zero values (compiled parser; C13 finding rs-order-check-by-zero-test)
+    ("strict-lenient-duration", ("py", "rs"), re.compile(r"P[\d.,WYMDHST]*\n?\Z")),
+]
+
+
+def _class_of(h, backend, half=False):
+    if RE_DT.match(h) or (not half and RE_TIME.match(h)) or dur_components(h) is not None:
+        return "in"
+    for fid, backs, rx in LENIENT:
+        if backend in backs and rx.match(h):
             return fid
     return None
 
 
-def _classify_disagree(s):
+def _classify_lenient(s, backend, res):
+    halves = s.split("/") if (s.count("/") == 1 and res[1] == 5) else [s]
+    cl = [_class_of(h, backend, len(halves) == 2) for h in halves]
+    if any(k is None for k in cl):
+        return None
+    ids = [k for k in cl if k != "in"]
+    return ids[0] if ids else None
+
+
+def _classify_disagree(s, o, item, oitem):
     # the listed C13 divergences: a duration (or the duration half of an interval) with a fraction
     halves = s.split("/") if s.count("/") == 1 else [s]
     for h in halves:
         if h[:1] == "P" and re.search(r"[.,]", h):
             return "backends-differ-duration-fraction"
+    # strict=False: one backend rejected the text and handed it to dateutil, the other parsed it itself
+    if not o["strict"] and len(item) == 2 and len(oitem) == 2 and item[1][0] == 0 and (item[0] == item[1] or oitem[0] == oitem[1]):
+        return "backends-differ-dateutil-fallback"
+    # YYYY/MMDD: the pure-Python parser reads two year-only dates (an interval), the compiled parser rejects a bare year and COMMON reads a date
+    if re.match(r"\d{4}/\d{4}\n?\Z", s):
+        return "backends-differ-interval-vs-common"
     return None
-
-
-_ND = r"\d"
-LENIENT_ALL = [
-    # _parse_common: YYYY[/:]MM[/:]DD, one-digit clock fields, '|' as fraction separator, any Unicode digit, a final newline
-    ("strict-lenient-common-format", ("py", "rs"),
-     re.compile(r"(?:\d{4}(?:[/:]?\d{2}[/:]?\d{2})?)?(?: ?\d{1,2}:\d{1,2}(?::\d{1,2})?(?:[.|,]\d{1,9})?)?\n?\Z")),
-    # pure-Python ISO8601_DT: `\d` = any Unicode digit, `$` before a final newline, one-digit day/clock fields, optional separators mixed
-    ("strict-lenient-python-regex", ("py",),
-     re.compile(r"(?:\d{4}(?:-?\d{2}(?:-?\d{1,2})?)?|\d{4}-?W\d{2}-?\d?)?(?:[T ]?\d{1,2}:?(?:\d{1,2})?:?(?:\d{1,2})?(?:[.,]\d{1,9})?(?:[-+]\d{2}:?(?:\d{2})?|Z)?)?\n?\Z")),
-    # both duration parsers: designators without a number (P, PT, P1DT), Unicode digits / newline (Python), fraction not on the last component,
-    # out-of-order or repeated designators with zero values (Rust: finding rs-order-check-by-zero-test of C13)
-    ("strict-lenient-duration", ("py", "rs"), re.compile(r"P[\d.,WYMDHST]*\n?\Z")),
-    ("strict-lenient-duration", ("py", "rs"), re.compile(r"[^/]*/P[\d.,WYMDHST]*\n?\Z|P[\d.,WYMDHST]*/[^/]*\Z")),
-    # compiled parser: fraction with more than 9 digits is fine, a week/ordinal date followed by a basic time etc. are all in the grammar; what it
-    # accepts outside: a space instead of T everywhere the grammar has T (already in the grammar), nothing else known
-]
 
 
 def oracle(c, backend, r):
